@@ -1,8 +1,8 @@
 (* C05 — messages reach only the addressed applications; foreign traffic is ignored.
-   (J1939-21 layer, ECU delivery rule and MessageListener; the J1939-22 layer is covered by C02's model.) *)
-From J1939 Require Import Base CodecGlue Model21.
-From J1939.gen Require Import Codec Tp21Gen CaGen.
-From J1939P Require Import CodecProofs Flat FilterProofs.
+   (both data link layers, the ECU delivery rule and the MessageListener.) *)
+From J1939 Require Import Base CodecGlue Model21 Model22.
+From J1939.gen Require Import Codec Tp21Gen CaGen Tp22Gen.
+From J1939P Require Import CodecProofs Flat FilterProofs MpgProofs PoolProofs FilterProofs22.
 
 (* T05.1: any PDU1 frame (application data, request, TP.CM with any control byte, TP.DT, address claim ...)
    for a destination the stack does not accept: no state change, no output, no delivery *)
@@ -66,3 +66,67 @@ Theorem C05_bystander_untouched : forall n frames,
   fold_left feed_frame frames (n, []) = (n, []).
 Proof. exact bystander_untouched. Qed.
 Print Assumptions C05_bystander_untouched.
+
+(* ------------------------------------------------------------------------------------------------------------------
+   The same at full strength — EVERY identifier (any priority, data page, extended data page; not only identifiers a
+   conforming sender composes): the PDU-format byte below 240 and a destination byte the stack does not accept are all
+   that matters — and for BOTH data link layers. *)
+Theorem C05_foreign_frame_ignored_any_identifier : forall n now id data,
+  id_pf id < 240 -> accepts n (id_ps id) = false -> notify n now id data = Done n 0.
+Proof. exact notify_foreign_any_id. Qed.
+Print Assumptions C05_foreign_frame_ignored_any_identifier.
+
+Theorem C05_fd_foreign_frame_ignored_any_identifier : forall m now id data,
+  id_pf id < 240 -> accepts (base m) (id_ps id) = false -> notify22 m now id data = Done m 0.
+Proof. exact notify22_foreign_any_id. Qed.
+Print Assumptions C05_fd_foreign_frame_ignored_any_identifier.
+
+(* the identifiers a sender composes, with either data page, are instances *)
+Theorem C05_fd_foreign_frame_ignored : forall m now prio dp pf dest sa data,
+  0 <= prio < 8 -> 0 <= dp < 2 -> 0 <= pf < 240 -> 0 <= dest < 256 -> 0 <= sa < 256 ->
+  accepts (base m) dest = false ->
+  notify22 m now (mid_can_id_of prio (pgn_value_of dp pf dest) sa) data = Done m 0.
+Proof. exact notify22_foreign. Qed.
+Print Assumptions C05_fd_foreign_frame_ignored.
+
+Theorem C05_foreign_frame_ignored_either_data_page : forall n now prio dp pf dest sa data,
+  0 <= prio < 8 -> 0 <= dp < 2 -> 0 <= pf < 240 -> 0 <= dest < 256 -> 0 <= sa < 256 ->
+  accepts n dest = false ->
+  notify n now (mid_can_id_of prio (pgn_value_of dp pf dest) sa) data = Done n 0.
+Proof. exact notify_foreign_dp. Qed.
+Print Assumptions C05_foreign_frame_ignored_either_data_page.
+
+(* the FD listener: only extended data frames are forwarded, every exception is contained *)
+Theorem C05_fd_listener_filter : forall m now id ext remote err data,
+  listener22 m now id ext remote err data =
+  if ext && negb remote && negb err then catch (notify22 m now id data) else Done m 0.
+Proof. exact listener22_filter. Qed.
+Print Assumptions C05_fd_listener_filter.
+Theorem C05_fd_listener_contains_exceptions : forall m now id ext remote err data,
+  exists r, fres22 (listener22 m now id ext remote err data) = RDone r.
+Proof. exact listener22_contains_exceptions. Qed.
+Print Assumptions C05_fd_listener_contains_exceptions.
+
+(* bystanders: ANY sequence of frames with ANY identifiers whose destination byte the stack does not accept, handed to the
+   real entry point (the listener), leaves the stack exactly as it was and makes it emit nothing — both layers *)
+Theorem C05_bystander_untouched_any_identifiers : forall n frames,
+  Forall (foreign_to n) frames -> fold_left feed_raw frames (n, []) = (n, []).
+Proof. exact bystander_untouched_any_id. Qed.
+Print Assumptions C05_bystander_untouched_any_identifiers.
+Theorem C05_fd_bystander_untouched_any_identifiers : forall m frames,
+  Forall (foreign_to (base m)) frames -> fold_left feed_raw22 frames (m, []) = (m, []).
+Proof. exact bystander22_untouched_any_id. Qed.
+Print Assumptions C05_fd_bystander_untouched_any_identifiers.
+
+(* a PDU2 frame on the FD layer (not one of the protocol's own groups) is a broadcast whatever its PS byte says *)
+Theorem C05_fd_pdu2_is_broadcast : forall m now id data,
+  240 <= id_pf id ->
+  let pgnf := (id / 256) mod 262144 in
+  let pv := Z.land (pgn_value ((pgnf / 65536) mod 2) (id_pf id) (id_ps id)) 130816 in
+  pv <> pgn_FEFF_MULTI_PG -> pv <> pgn_ADDRESSCLAIM -> pv <> pgn_REQUEST -> pv <> pgn_FD_TP_CM -> pv <> pgn_FD_TP_DT ->
+  pv <> pgn_TP_CM -> pv <> pgn_DATATRANSFER ->
+  notify22 m now id data =
+  notify_subscribers22 ((id / 67108864) mod 8) (pgn_value ((pgnf / 65536) mod 2) (id_pf id) (id_ps id)) (id mod 256)
+                       addr_GLOBAL data m (fun m' => Done m' 0).
+Proof. exact notify22_pdu2. Qed.
+Print Assumptions C05_fd_pdu2_is_broadcast.
